@@ -2,6 +2,7 @@
 #include "../../runtime/util.h"
 #include <array>
 #include <string>
+#include <algorithm>
 #include <string_view>
 #include <cctype>
 #include <vector>
@@ -132,13 +133,17 @@ namespace sqf::parser::config
                     // Check if line comment start
                     if (len_ident_match(iter, "#line"))
                     {
-                        iter += 6;
+                        iter += 5;
+                        if (iter != m_end) { ++iter; }
 
                         // Read in line num
                         auto start = iter;
                         for (; iter != m_end && *iter != '\n' && *iter != ' '; iter++);
                         std::string str_tmp(start, iter);
-                        m_line = static_cast<size_t>(std::stoul(str_tmp));
+                        if (!str_tmp.empty() && std::all_of(str_tmp.begin(), str_tmp.end(), [](char c) { return c >= '0' && c <= '9'; }) && str_tmp.length() < 10)
+                        {
+                            m_line = static_cast<size_t>(std::stoul(str_tmp));
+                        }
 
                         // Try skip to file
                         iter += len_match<' ', '\t'>(iter);
@@ -162,7 +167,7 @@ namespace sqf::parser::config
                     if (is_match_repeated<2, '/'>(iter))
                     {
                         // find line comment end
-                        while (!is_match<'\n'>(++iter));
+                        while (++iter < m_end && !is_match<'\n'>(iter));
 
                         // update position info
                         m_line++;
@@ -179,7 +184,7 @@ namespace sqf::parser::config
                         ++iter;
                         ++iter;
                         // find block comment end
-                        while (!(is_match<'*'>(iter) && is_match<'/'>(iter + 1)))
+                        while (iter < m_end && !(is_match<'*'>(iter) && is_match<'/'>(iter + 1)))
                         {
                             // update position info
                             if (!is_match<'\n'>(iter))
@@ -194,8 +199,8 @@ namespace sqf::parser::config
                             ++iter;
                         }
 
-                        // EOF check
-                        if (is_match<'/'>(iter) && is_match<'/'>(iter + 1))
+                        // Skip the comment terminator (absent if the input ended inside the comment)
+                        if (is_match<'*'>(iter) && is_match<'/'>(iter + 1))
                         {
                             ++iter;
                             ++iter;
